@@ -20,17 +20,13 @@ impl PartialEqSpecImpl for Coin {
 }
 impl ToStr_ for Coin { #[verifier::external_body] fn to_str_(&self) -> (r: Str) { unimplemented!() } }
 /// `cosmwasm_std::coin(amount, denom)`
-pub fn coin(amount: u128, denom: Str) -> (r: Coin) ensures r.amount.v == amount, r.denom == denom {
-    Coin { denom, amount: Uint128 { v: amount } }
-}
+#[verifier::external_body]
+pub fn coin<D: AsStr>(amount: u128, denom: D) -> (r: Coin) ensures r.amount.v == amount, r.denom@ == denom.sv() { unimplemented!() }
 /// `cosmwasm_std::coins(amount, denom)`
-pub fn coins(amount: u128, denom: Str) -> (r: Vec<Coin>)
-    ensures r@.len() == 1, r@[0].amount.v == amount, r@[0].denom == denom
-{
-    let mut v = Vec::new();
-    v.push(Coin { denom, amount: Uint128 { v: amount } });
-    v
-}
+#[verifier::external_body]
+pub fn coins<D: AsStr>(amount: u128, denom: D) -> (r: Vec<Coin>)
+    ensures r@.len() == 1, r@[0].amount.v == amount, r@[0].denom@ == denom.sv()
+{ unimplemented!() }
 
 // ---------------------------------------------------------------- Env / MessageInfo
 pub struct BlockInfo { pub height: u64, pub time: Timestamp, pub chain_id: Str }
